@@ -13,6 +13,7 @@ import (
 	"fmt"
 	"os"
 	"runtime"
+	"runtime/debug"
 	"sort"
 	"strings"
 	"sync"
@@ -736,6 +737,8 @@ func main() {
 	out := hutil.NewOut(os.Args[1])
 	defer out.Close()
 	tier := os.Args[2]
+	// evaluation allocates heavily and nothing is long-lived but the prepared queries: trade memory for collector time
+	debug.SetGCPercent(250)
 	e := newEnv()
 	rng := hutil.NewRng(hutil.SeedFromEnv())
 
